@@ -19,7 +19,7 @@ var rec *mon.Rec
 // group is one case of the plan: a batch of seeded histories / sequences or
 // one block of an exhaustive enumeration.
 type group struct {
-	kind    string // map | atomic | slice | slice-args | slice-seeded | map-keys-alias | zero-values | ring-values | ring-seeded | ring-exh | buf-exh | buf-exh3 | buf-seeded
+	kind    string // map | atomic | slice | slice-args | slice-seeded | map-keys-alias | zero-values | ring-values | ring-seeded | ring-exh | buf-exh | buf-exh3 | buf-reentrant | buf-seeded
 	a, b, c int
 	n       int
 }
@@ -38,6 +38,8 @@ func (g group) String() string {
 		return fmt.Sprintf("zero-value keys and values: %d seeded sequential sequences over 9 instantiations (stream c14-zero, idx*4096+sub)", g.n)
 	case "ring-values":
 		return fmt.Sprintf("ring.Ring[any] with arbitrary values: %d seeded sequences (stream c14-ring-values, idx*4096+sub)", g.n)
+	case "buf-reentrant":
+		return fmt.Sprintf("buffered re-entrant Range callbacks: initial=%d buffer=%d, fill 0..12 x rotation 0..3 x 5 callback kinds x 4 acting-visit counts", g.a, g.b)
 	case "buf-exh3":
 		return fmt.Sprintf("buffered exhaustive with values {fresh,nil,shared}: initial=%d buffer=%d, all valid sequences of length %d starting with symbol %d", g.a, g.b, g.n, g.c)
 	case "ring-seeded":
@@ -106,6 +108,11 @@ func plan() []group {
 			}
 		}
 	}
+	for a := 0; a <= 5; a++ {
+		for b := 0; b <= 5; b++ {
+			gs = append(gs, group{kind: "buf-reentrant", a: a, b: b})
+		}
+	}
 	add("buf-seeded", mon.Pick(360, 18000), mon.Pick(50, 100))
 	// A fixed shuffle spreads the kinds over the plan, so that the children do
 	// not all run their multi-goroutine linearizability batches at the same
@@ -141,6 +148,8 @@ func TestCheck(t *testing.T) {
 		"Zero values: in the concurrent map/atomic histories the first key is the empty string and a sixth of the stored / initial values are 0; sequential differentials against a builtin map / slice over cmap.Map[string,int], [int,string], [string,*int], [any,any], [bool,struct{}], cmap.Atomic[string,int64], [int,int64], Slice[*int], Slice[any] with zero keys ('', 0, nil, false) and zero values (0, '', nil pointer, nil interface, typed nil pointer), all observers after every step. "+
 		"ring.Ring[any] vs container/ring with element values nil / zero / equal / typed-nil / shared pointers (values also reassigned mid-sequence), Move and Unlink with 0, negative and multiples of the length, rings of length 1, a ring linked with itself. "+
 		"ring.Buffered additionally with the value alphabet {fresh pointer, nil, the same pointer again}: every valid sequence of the stated length over {3 appends, RemoveFront} for sizes 0..3 x 0..3, and in the seeded sequences. "+
+		"ring.Buffered re-entrant Range callbacks: the callback consumes the element it was handed (RemoveFront), re-queues (AppendBack, bounded to the first k visits), does both, reads Front/Len, or runs a nested Range; reference = slice queue iterated over the elements queued at call time while the callback works on the live queue; every walk has a visit budget (more visits than elements queued at call = violation, not a hang); all sizes 0..5 x 0..5, fill 0..12, rotation 0..3, and inside the seeded sequences. "+
+		"ring.Do with a callback that Moves / Unlinks the successor / Links a fresh element on the ring being walked (documented as undefined, so container/ring running the same callback is the only reference; walks that do not terminate in the reference are skipped): visits, termination and resulting structure compared, at the end of every seeded ring sequence. "+
 		"ring.Ring: seeded sequences of 1-60 steps (New 0..5, zero element, Next, Prev, Move(+-n), Link, Unlink, Len, Do) applied to ring.Ring and container/ring side by side, after every step the link structure (raw next/prev of every element ever created), values and returned element must correspond; plus every sequence of the stated length over a 13-symbol two-handle alphabet from each initial (New(a),New(b)), a,b in 0..3, with Len and Do on both handles after every step. Non-trivial = at least one Link/Unlink executed. "+
 		"ring.Buffered: every valid AppendBack/RemoveFront sequence of the stated length for each (initial, buffer) in 0..5 x 0..5 with Len, Front, Range and early-stopping Range compared with a slice queue after every step; plus seeded sequences of 1-60 steps with grow/drain phases and a final drain. RemoveFront is only issued on a non-empty queue. Non-trivial = at least one RemoveFront.")
 	rec.Note("require", []string{
@@ -155,6 +164,8 @@ func TestCheck(t *testing.T) {
 		"ring.seeded.arg_multiple_of_len", "ring.seeded.link_with_itself", "ring.seeded.length_1_receivers",
 		"zero.present_zero_key_observed", "zero.present_zero_value_observed",
 		"lin.map.snapshot.single_writer_histories", "lin.map.snapshot.writes_attempted_during_a_slow_walk", "lin.atomic.snapshot.single_writer_histories", "lin.atomic.snapshot.writes_attempted_during_a_slow_walk",
+		"buffered.reentrant.walks_completed", "buffered.reentrant.mutations_inside_callbacks", "buffered.reentrant.grow_events", "buffered.reentrant.shrink_events", "buffered.seeded.reentrant_walks",
+		"ring.seeded.do_with_mutating_callback_compared",
 		"alias.slice.scenarios", "alias.slice.seeded_sequences", "alias.map.keys_checks",
 		"selftest.models_ok"})
 	rec.Note("exhaustive", fmt.Sprintf("ring: all %d^%d sequences over the reduced alphabet from each of the %d initial states (New(a),New(b)), a,b in 0..%d; buffered: all valid AppendBack/RemoveFront sequences of length %d for the 36 size pairs, and all valid sequences of length %d over {AppendBack(fresh), AppendBack(nil), AppendBack(shared), RemoveFront} for the 16 size pairs 0..3. The linearizability part is sampled, not exhaustive.", len(ringAlphabet), ringExhLen, (ringExhInit+1)*(ringExhInit+1), ringExhInit, bufExhLen, bufExh3Len))
@@ -187,6 +198,8 @@ func TestCheck(t *testing.T) {
 			runRingValues(idx, g)
 		case "buf-exh3":
 			runBufExhaustiveValues(idx, g)
+		case "buf-reentrant":
+			runBufReentrant(idx, g)
 		case "ring-seeded":
 			runRingSeeded(idx, g)
 		case "ring-exh":
